@@ -7,6 +7,7 @@ from vf import core
 
 THM = ["YaraModel.Thm.C16"]
 MANIFEST = dict(
+    category="fault_enumeration",
     technique="exhaustive allocation-fault enumeration (every k-th allocation of every scenario fails; single and 'k-th and all later') under ASan+UBSan+LSan "
               "+ allocation ledger, and Lean 4 proofs over an allocation monad (all failure oracles) for ported functions with non-trivial cleanup",
     text="fault_enumeration / partial: for each of ~40 scenarios (initialise, compile each construct class and each module import, includes, externals, save, "
@@ -448,9 +449,11 @@ def run(tier, replay=None):
                             "non-trivial = a failure was actually injected (k <= allocations performed)",
                     "scenarios": plan, "outcome_histogram": dict(sorted(rc_hist.items(), key=lambda x: -x[1])),
                     "failure_groups": summary, "lean_port_tie": tie, "allocations_total": sum(p["N"] for p in plan.values()),
-                    "samples": [{"scenario": s[0], "baseline": base.get(s[0])} for s in scs[:3]]})
+                    "exhaustive": tier != "quick" and not replay,
+                    "samples": [{"scenario": s[0], "fault_free_run": base.get(s[0])} for s in scs[:2]] +
+                               [{"case": l[:300], "result": (res.get(l.split(" ", 1)[0]) or {}).get("out")} for (sc_, lines), (res, ls) in list(zip(chunks, outs))[:3] for l in lines[:1]]})
     core.handle_broken_proof(chk, lres, found)
     chk.assumptions += ["only allocations made through libyara's allocator (yr_malloc & co.) are failed; flex/bison buffers, OpenSSL, authenticode-parser, tlsh call libc directly",
                         "quick tier samples k for scenarios with more than 300 allocations (stride + random + first 60 + last 2), thorough enumerates every k",
                         "known findings are keyed by (kind, allocation call site, calling context), not by scenario or k"]
-    return chk.finish("proof")
+    return chk.finish("fault_enumeration")
